@@ -6,12 +6,13 @@ symbolic so that deleting ops during minimisation keeps programs valid.
 """
 
 import random
+import re
 
 from gen import corpus
 
 SYS_FLAGS = ["\\Seen", "\\Answered", "\\Flagged", "\\Deleted", "\\Draft"]
 TAME_KW = ["$Forwarded", "NonJunk", "kw1"]
-WILD_KW = ["a.b", "x-y", "a:b", "1", "not", "cur", "kw_2", "$MDNSent", "all", "first", "last", "caf\u00e9", "a]b"]  # odd but valid atoms (names that ARE MH sequence names of system flags: see ALIAS_KW)
+WILD_KW = ["a.b", "x-y", "a:b", "1", "not", "cur", "kw_2", "$MDNSent", "all", "first", "last", "caf\u00e9", "a]b", "EXPUNGE", "NotEXPUNGEd"]  # odd but valid atoms (names that ARE MH sequence names of system flags: see ALIAS_KW)
 ALIAS_KW = ["Seen", "unseen", "replied", "flagged", "Recent", "Deleted", "Draft"]
 FLAG_KEYS = ["ALL", "SEEN", "UNSEEN", "FLAGGED", "UNFLAGGED", "DELETED", "UNDELETED", "ANSWERED", "UNANSWERED", "DRAFT", "UNDRAFT"]
 LAT_PROFILES = ["zero", "small", "bimodal", "slow", "wide"]
@@ -37,7 +38,7 @@ def initial_store(r, names, lo=0, hi=8, sparse=False, kw=TAME_KW, shapes=None, t
             fl = [f for f in SYS_FLAGS if r.random() < 0.25]
             if kw and r.random() < 0.3:
                 k = r.choice(kw)
-                if k.isascii():  # (the store is written as an MH tool would: .mh_sequences is ASCII)
+                if re.fullmatch(r"[A-Za-z0-9_.$+-]+", k):  # (the store is written as an MH tool would: plain sequence names)
                     fl.append(k)
             msgs.append(
                 {
@@ -135,14 +136,14 @@ class Gen:
         if kind == "store":
             return {
                 "s": s, "op": "store", "uid": r.random() < 0.5, "set": self.posset(n), "how": r.choice("+-="),
-                "flags": self.flagset(), "silent": r.random() < 0.3,
+                "flags": self.flagset(), "silent": r.random() < 0.3, **({"noparen": True} if r.random() < p.get("noparen_p", 0.0) else {}),
             }
         if kind == "delete_flag":
             return {"s": s, "op": "store", "uid": r.random() < 0.5, "set": self.posset(n, False), "how": "+", "flags": ["\\Deleted"], "silent": r.random() < 0.3}
         if kind == "fetch":
             return {"s": s, "op": "fetch", "uid": r.random() < 0.5, "set": self.posset(n), "items": r.choice(p.get("fetch_items") or BODY_ITEMS)}
         if kind == "search":
-            key = r.choice(FLAG_KEYS) if r.random() < 0.7 else f"KEYWORD {r.choice(self.kw)}"
+            key = r.choice(FLAG_KEYS) if r.random() < 0.7 else f"{r.choice(('KEYWORD', 'KEYWORD', 'UNKEYWORD'))} {r.choice(self.kw)}"
             return {"s": s, "op": "search", "uid": r.random() < 0.5, "key": key}
         if kind == "expunge":
             op = {"s": s, "op": "expunge"}
